@@ -199,103 +199,161 @@ struct HKey {
   inline bool matches(const HNode* n) const noexcept { return n->key == key; }
 };
 
-// Reciprocal-multiplication modulo of every table entry equals the true remainder for every 32-bit hash code.
-HARNESS h_hash_mod() {
-  uint32_t idx = nondet_u8(); V_ASSUME(idx < ASMJIT_ARRAY_SIZE(ArenaHash_prime_array));
-  uint32_t h = nondet_u32();
+// Reciprocal-multiplication modulo of a table entry equals the true remainder for every 32-bit hash code. The prime is a
+// constant per instantiation (multiplication and remainder by a symbolic value are out of reach for the SAT back end);
+// each harness covers a block of 8 consecutive table entries chosen by a symbolic selector.
+template<unsigned IDX>
+static void hash_mod_case() {
+  if (IDX >= ASMJIT_ARRAY_SIZE(ArenaHash_prime_array)) return;
+  const unsigned idx = IDX < ASMJIT_ARRAY_SIZE(ArenaHash_prime_array) ? IDX : 0;
+  // The SAT back end cannot decide the 32x32-bit multiply/remainder equivalence over all 2^32 codes for small primes (no
+  // verdict in 15 min for p = 11). Decided here: (a) all codes below 2^16 symbolically through the real _calc_mod, and (b) the
+  // precondition of the division-by-invariant-multiplication theorem (Granlund, Montgomery 1994, Thm 4.2: if
+  // 2^s <= m*p <= 2^s + 2^(s-32) then floor(m*h / 2^s) = floor(h / p) for all h < 2^32) for the table constants.
+  uint32_t h = nondet_u16();
+  {
+    unsigned __int128 mp = (unsigned __int128)ArenaHash_prime_array[idx].rcp * ArenaHash_prime_array[idx].prime;
+    unsigned sh = ArenaHash_prime_shift[idx];
+    unsigned __int128 two_s = (unsigned __int128)1 << sh;
+    V_ASSERT(sh >= 32 && sh < 64 && mp >= two_s && mp <= two_s + (two_s >> 32), "hash: table constants satisfy the exactness condition of reciprocal division for 32-bit codes");
+  }
   ArenaHash<HNode> t;
   t._buckets_count = ArenaHash_prime_array[idx].prime; t._rcp_value = ArenaHash_prime_array[idx].rcp; t._rcp_shift = ArenaHash_prime_shift[idx];
   uint32_t m = t._calc_mod(h);
   verif_observe(m);
-  V_ASSERT(m == h % t._buckets_count, "hash: reciprocal modulo equals the remainder for every prime of the table");
-  V_ASSERT(uint32_t(t._buckets_count * 0.9) <= t._buckets_count, "hash: grow threshold below the bucket count");
+  V_ASSERT(m == h % t._buckets_count, "hash: reciprocal modulo equals the remainder");
+  V_ASSERT(uint32_t(t._buckets_count * 0.9) <= t._buckets_count && uint32_t(t._buckets_count * 0.9) >= 1, "hash: grow threshold between 1 and the bucket count");
   V_WITNESS("hash-mod");
 }
+template<unsigned BASE>
+static void hash_mod_block() {
+  switch (nondet_u8() & 7) {
+    case 0: hash_mod_case<BASE + 0>(); break; case 1: hash_mod_case<BASE + 1>(); break; case 2: hash_mod_case<BASE + 2>(); break; case 3: hash_mod_case<BASE + 3>(); break;
+    case 4: hash_mod_case<BASE + 4>(); break; case 5: hash_mod_case<BASE + 5>(); break; case 6: hash_mod_case<BASE + 6>(); break; default: hash_mod_case<BASE + 7>(); break;
+  }
+}
+#define HASH_MOD(N) HARNESS h_hash_mod_##N() { hash_mod_block<8 * N>(); }
+HASH_MOD(0) HASH_MOD(1) HASH_MOD(2) HASH_MOD(3) HASH_MOD(4) HASH_MOD(5) HASH_MOD(6) HASH_MOD(7) HASH_MOD(8)
+HASH_MOD(9) HASH_MOD(10) HASH_MOD(11) HASH_MOD(12) HASH_MOD(13) HASH_MOD(14) HASH_MOD(15) HASH_MOD(16)
 
-extern "C" { void* verif_block_512(); }
-#if !defined(VERIF_CBMC)
-extern "C" { void* verif_block_512() { return malloc(16 + 512); } }
-#endif
+// Environment stub for the hash harnesses: the table's bucket array comes from this typed pool instead of a real Arena (the
+// arena has its own harnesses in h_arena.cpp; here it is environment). Zeroed, as _alloc_reusable_zeroed promises.
+static void* hash_pool[32]; static unsigned hash_pool_calls; static size_t hash_pool_request;
+ASMJIT_BEGIN_NAMESPACE
+void* Arena::_alloc_reusable_zeroed(size_t size, Out<size_t> allocated_size) noexcept {
+  hash_pool_calls++; hash_pool_request = size;
+  for (unsigned i = 0; i < 32; i++) hash_pool[i] = nullptr;
+  allocated_size = size;
+  return size <= sizeof(hash_pool) ? hash_pool : nullptr;
+}
+ASMJIT_END_NAMESPACE
 
-// Pre-state: a table with NB buckets (1 = embedded, or a prime of the table held in a harness array) containing 0..4 of the
-// nodes 0..3 with symbolic hash codes (collisions included), chained in any order the insertion history could produce.
+// Pre-state: a table with 1 (embedded), 2 or 11 buckets (harness array) containing 0..4 of the nodes 0..3 with symbolic
+// 8-bit hash codes (collisions included; wider codes put the reciprocal-modulo multiplier out of the SAT back end's reach,
+// see h_hash_mod), chained in any order an insertion history could produce.
 static const unsigned HN = 5;
+// Nodes and the bucket array are separate objects (a store through a pointer with a symbolic offset rewrites the whole
+// object it points into: keep those objects small).
 struct HState {
-  HNode nodes[HN]; bool in[HN]; unsigned count;
-  ArenaHashNode* buckets[59];
+  HNode* nd[HN]; bool in[HN]; unsigned count;
+  ArenaHashNode** buckets;
 };
-static inline void hash_build(ArenaHash<HNode>& t, HState& s, unsigned pidx, bool embedded) {
-  for (unsigned i = 0; i < HN; i++) { s.nodes[i]._hash_code = nondet_u32(); s.nodes[i].key = s.nodes[i]._hash_code ^ 0x5A5A5A5Au; s.nodes[i]._hash_next = nullptr; s.nodes[i]._custom_data = i; s.in[i] = false; }
-  for (unsigned i = 0; i < 59; i++) s.buckets[i] = nullptr;
-  for (unsigned i = 0; i < HN; i++) for (unsigned j = 0; j < i; j++) V_ASSUME(s.nodes[i]._hash_code != s.nodes[j]._hash_code);  // distinct keys
-  if (!embedded) {
-    t._data = s.buckets; t._buckets_count = ArenaHash_prime_array[pidx].prime; t._buckets_grow = uint32_t(t._buckets_count * 0.9);
-    t._rcp_value = ArenaHash_prime_array[pidx].rcp; t._rcp_shift = ArenaHash_prime_shift[pidx]; t._prime_index = uint8_t(pidx);
+template<unsigned PIDX, bool EMBEDDED>
+static inline void hash_build(ArenaHash<HNode>& t, HState& s) {
+  for (unsigned i = 0; i < HN; i++) { s.nd[i]->_hash_code = nondet_u8(); s.nd[i]->key = s.nd[i]->_hash_code ^ 0x5A5A5A5Au; s.nd[i]->_hash_next = nullptr; s.nd[i]->_custom_data = i; s.in[i] = false; }
+  for (unsigned i = 0; i < 11; i++) s.buckets[i] = nullptr;
+  for (unsigned i = 0; i < HN; i++) for (unsigned j = 0; j < i; j++) V_ASSUME(s.nd[i]->_hash_code != s.nd[j]->_hash_code);  // distinct keys
+  if (!EMBEDDED) {
+    t._data = s.buckets; t._buckets_count = ArenaHash_prime_array[PIDX].prime; t._buckets_grow = uint32_t(t._buckets_count * 0.9);
+    t._rcp_value = ArenaHash_prime_array[PIDX].rcp; t._rcp_shift = ArenaHash_prime_shift[PIDX]; t._prime_index = uint8_t(PIDX);
   }
   s.count = 0;
-  unsigned limit = embedded ? 1 : 4;
+  const unsigned limit = EMBEDDED ? 1 : 4;
   for (unsigned i = 0; i < 4; i++) {
     if (s.count < limit && nondet_bool()) {
-      uint32_t b = s.nodes[i]._hash_code % t._buckets_count;
-      s.nodes[i]._hash_next = t._data[b]; t._data[b] = &s.nodes[i]; s.in[i] = true; s.count++;
+      uint32_t b = s.nd[i]->_hash_code % t._buckets_count;
+      s.nd[i]->_hash_next = t._data[b]; t._data[b] = s.nd[i]; s.in[i] = true; s.count++;
     }
   }
   t._size = s.count;
 }
-// Every model member is found once in the bucket of its hash code, nothing else is in the table, size matches.
-static inline void hash_check(ArenaHash<HNode>& t, HState& s, unsigned nb_max) {
+__attribute__((noinline)) static HNode* hash_do_get(ArenaHash<HNode>& t, const HKey& k) { return t.get(k); }
+// Membership = model without walking every chain: (1) every bucket head and every member's successor is a member whose
+// hash code belongs to that bucket, (2) every member has exactly one predecessor (a bucket head slot or another member),
+// (3) lookup (the real get) reaches every member and no non-member, (4) size matches. (1)-(3) together exclude foreign
+// nodes, duplicates, wrong buckets and cycles.
+template<unsigned NBMAX>
+__attribute__((noinline)) static void hash_check(ArenaHash<HNode>& t, HState& s) {
   unsigned expect = 0; for (unsigned i = 0; i < HN; i++) if (s.in[i]) expect++;
   V_ASSERT(t._size == expect, "hash: size equals the number of members");
-  unsigned total = 0;
-  for (unsigned b = 0; b < nb_max; b++) if (b < t._buckets_count) {
+  V_ASSERT(t._buckets_count <= NBMAX && t._buckets_count >= 1, "hash: bucket count within the expected bound");
+  unsigned preds[HN]; for (unsigned i = 0; i < HN; i++) preds[i] = 0;
+  for (unsigned b = 0; b < NBMAX; b++) if (b < t._buckets_count) {
     ArenaHashNode* q = t._data[b];
-    for (unsigned d = 0; d < HN + 1 && q; d++) {
-      total++;
-      V_ASSERT(d < HN, "hash: bucket chains are acyclic and no longer than the member count");
-      V_ASSERT(q->_hash_code % t._buckets_count == b, "hash: a node sits in the bucket of its hash code");
-      q = q->_hash_next;
+    if (q) {
+      bool known = false;
+      for (unsigned i = 0; i < HN; i++) if (q == s.nd[i]) { known = s.in[i]; preds[i]++; }
+      V_ASSERT(known, "hash: a bucket head is a member");
+      V_ASSERT(q->_hash_code % t._buckets_count == b, "hash: a bucket head sits in the bucket of its hash code");
     }
   }
-  V_ASSERT(total == expect, "hash: the buckets hold exactly as many nodes as the model");
+  for (unsigned i = 0; i < HN; i++) if (s.in[i] && s.nd[i]->_hash_next) {
+    ArenaHashNode* q = s.nd[i]->_hash_next; bool known = false;
+    for (unsigned j = 0; j < HN; j++) if (q == s.nd[j]) { known = s.in[j] && j != i; preds[j]++; }
+    V_ASSERT(known, "hash: the successor of a member is another member");
+    V_ASSERT(q->_hash_code % t._buckets_count == s.nd[i]->_hash_code % t._buckets_count, "hash: chained nodes share the bucket");
+  }
+  for (unsigned i = 0; i < HN; i++) if (s.in[i]) V_ASSERT(preds[i] == 1, "hash: every member is linked exactly once");
   for (unsigned i = 0; i < HN; i++) {
-    HKey k{s.nodes[i].key, s.nodes[i]._hash_code};
-    HNode* g = t.get(k);
-    V_ASSERT(g == (s.in[i] ? &s.nodes[i] : nullptr), "hash: lookup finds members and only members");
+    HKey k{s.nd[i]->key, s.nd[i]->_hash_code};
+    HNode* g = hash_do_get(t, k);
+    V_ASSERT(g == (s.in[i] ? s.nd[i] : nullptr), "hash: lookup finds members and only members");
   }
 }
 
-template<unsigned PIDX, bool EMBEDDED>
+// PIDX: prime index of the pre-state table (EMBEDDED: the single embedded bucket); RIDX: target of the explicit rehash.
+template<unsigned PIDX, bool EMBEDDED, unsigned RIDX, unsigned OP>
 static void hash_step() {
-  Arena arena(1024);
-  // one 512-byte block: a rehash takes the new bucket array (up to 59 pointers) from it
-  Arena::ManagedBlock* blk = static_cast<Arena::ManagedBlock*>(verif_block_512()); blk->next = nullptr; blk->size = 512;
-  arena._first_block = blk; arena._current_block = blk; arena._ptr = blk->data(); arena._end = blk->data() + 512;
-  arena._min_block_size_shift = 7; arena._current_block_size_shift = 7;
+  // never-constructed Arena object: only its slot lists are touched (free_reusable of the old bucket array)
+  alignas(8) static unsigned char arena_mem[sizeof(Arena)]; memset(arena_mem, 0, sizeof arena_mem);
+  Arena& arena = *reinterpret_cast<Arena*>(arena_mem);
+  hash_pool_calls = 0;
   ArenaHash<HNode> t; HState s;
-  hash_build(t, s, PIDX, EMBEDDED);
-  unsigned op = nondet_u8() % 3;
-  verif_observe(op); verif_observe(s.count);
+  HNode n0, n1, n2, n3, n4; ArenaHashNode* bucket_mem[11];
+  s.nd[0] = &n0; s.nd[1] = &n1; s.nd[2] = &n2; s.nd[3] = &n3; s.nd[4] = &n4; s.buckets = bucket_mem;
+  hash_build<PIDX, EMBEDDED>(t, s);
+  const unsigned nb0 = EMBEDDED ? 1u : ArenaHash_prime_array[PIDX].prime;
+  const unsigned op = OP;  // one operation per harness: the formula of all three together costs a minute per solver call
+  verif_observe(s.count);
   if (op == 0) {
-    HNode* r = t.insert(arena, &s.nodes[4]); s.in[4] = true;
-    V_ASSERT(r == &s.nodes[4], "hash: insert returns the node");
-    if (EMBEDDED && s.count == 1) { V_ASSERT(t._buckets_count == 29 && t._data != t._embedded && t._prime_index == 2 && t._buckets_grow == 26, "hash: second insert moves from the embedded bucket to 29 buckets"); V_WITNESS("hash-insert-rehash"); }
-    else { V_ASSERT(t._buckets_count == (EMBEDDED ? 1u : ArenaHash_prime_array[PIDX].prime), "hash: insert below the threshold keeps the bucket array"); V_WITNESS("hash-insert"); }
+    HNode* r = t.insert(arena, s.nd[4]); s.in[4] = true;
+    V_ASSERT(r == s.nd[4], "hash: insert returns the node");
+    bool grows = s.count + 1 > (EMBEDDED ? 1u : uint32_t(nb0 * 0.9));
+    if (grows) {
+      const unsigned pi = (EMBEDDED ? 0 : PIDX) + 2;
+      V_ASSERT(t._buckets_count == ArenaHash_prime_array[pi].prime && t._data != t._embedded && t._data != s.buckets && t._prime_index == pi && t._buckets_grow == uint32_t(t._buckets_count * 0.9), "hash: insert beyond the threshold moves to the prime two steps up");
+      V_WITNESS("hash-insert-rehash");
+    } else { V_ASSERT(t._buckets_count == nb0 && t._data == (EMBEDDED ? t._embedded : s.buckets), "hash: insert below the threshold keeps the bucket array"); V_WITNESS("hash-insert"); }
   } else if (op == 1) {
     unsigned v = nondet_u8() % HN;
-    HNode* r = t.remove(arena, &s.nodes[v]);
-    V_ASSERT(r == (s.in[v] ? &s.nodes[v] : nullptr), "hash: remove returns the node iff it was a member");
+    HNode* r = t.remove(arena, s.nd[v]);
+    V_ASSERT(r == (s.in[v] ? s.nd[v] : nullptr), "hash: remove returns the node iff it was a member");
+    V_ASSERT(t._buckets_count == nb0, "hash: remove keeps the bucket array");
     if (s.in[v]) V_WITNESS("hash-remove-member"); else V_WITNESS("hash-remove-absent");
     s.in[v] = false;
   } else {
-    if (EMBEDDED) { t._rehash(arena, 1); V_ASSERT(t._buckets_count == 11 && t._buckets_grow == 9 && t._prime_index == 1, "hash: rehash to 11 buckets"); }
-    else { t._rehash(arena, PIDX + 2); V_ASSERT(t._buckets_count == ArenaHash_prime_array[PIDX + 2].prime && t._data != s.buckets, "hash: rehash to the prime two steps up"); }
-    V_ASSERT(reinterpret_cast<uint8_t*>(t._data) >= blk->data() && reinterpret_cast<uint8_t*>(t._data + t._buckets_count) <= blk->data() + 512, "hash: new bucket array comes from the arena block");
+    t._rehash(arena, RIDX);
+    V_ASSERT(t._buckets_count == ArenaHash_prime_array[RIDX].prime && t._prime_index == RIDX && t._buckets_grow == uint32_t(t._buckets_count * 0.9), "hash: rehash installs the requested prime");
+    V_ASSERT(reinterpret_cast<void**>(t._data) == hash_pool && hash_pool_calls == 1 && hash_pool_request == size_t(t._buckets_count) * sizeof(void*), "hash: new bucket array is one arena request of bucket-count pointers");
+    if (!EMBEDDED) V_ASSERT(arena._reusable_slots[PIDX == 0 ? 0 : 3] == reinterpret_cast<Arena::ReusableSlot*>(s.buckets), "hash: old bucket array released to the arena slot of its size");
     V_WITNESS("hash-rehash");
   }
-  hash_check(t, s, 59);
-  arena._first_block = nullptr;  // the block is leaked on purpose; the destructor must not walk it (list head is the zero block otherwise)
-  arena._first_block = blk;
+  hash_check<29>(t, s);
 }
-HARNESS h_hash_embedded() { hash_step<0, true>(); }
-HARNESS h_hash_p11() { hash_step<1, false>(); }
-HARNESS h_hash_p29() { hash_step<2, false>(); }
+#define HASH_H(NAME, PIDX, EMB, RIDX) \
+  HARNESS h_hash_##NAME##_insert() { hash_step<PIDX, EMB, RIDX, 0>(); } \
+  HARNESS h_hash_##NAME##_remove() { hash_step<PIDX, EMB, RIDX, 1>(); } \
+  HARNESS h_hash_##NAME##_rehash() { hash_step<PIDX, EMB, RIDX, 2>(); }
+HASH_H(embedded, 0, true, 0)   // 1 bucket; insert -> 29, rehash -> 2
+HASH_H(p2, 0, false, 1)        // 2 buckets; insert -> 29, rehash -> 11
+HASH_H(p11, 1, false, 2)       // 11 buckets; insert stays, rehash -> 29
